@@ -29,7 +29,8 @@ Bases == <<
   << Used(-1, "TERMOSOLAR", "ACS", <<4, 4>>), Used(-1, "GASNATURAL", "ACS", <<6, 2>>), Aux(-1, "NEPB", <<2, 2>>),
      Used(3, "ELECTRICIDAD", "REF", <<8, 0>>), Aux(3, "NEPB", <<0, 2>>), Out(3, "REF", <<-24, 0>>) >>,
   \* multi-service system with auxiliaries and outputs, plus legacy id 0 production
-  << Used(1, "BIOMASA", "CAL", <<10, 4>>), Used(1, "BIOMASA", "ACS", <<2, 2>>), Out(1, "CAL", <<8, 3>>), Out(1, "ACS", <<2, 1>>),
+  \* (the output line of one service first: it is at one of the positions the rewriting actions work on)
+  << Out(1, "CAL", <<8, 3>>), Used(1, "BIOMASA", "CAL", <<10, 4>>), Used(1, "BIOMASA", "ACS", <<2, 2>>), Out(1, "ACS", <<2, 1>>),
      Aux(1, "NEPB", <<4, 2>>), Prod(0, "EL_INSITU", <<2, 2>>), Used(0, "ELECTRICIDAD", "ILU", <<6, 6>>) >>,
   \* two heat pumps, each using ambient heat for two services, nothing declared: the completion is per system,
   \* whatever the order in which the lines of the two systems are interleaved
@@ -47,7 +48,7 @@ Rewrite ==
   /\ d < Depth /\ d' = d + 1 /\ UNCHANGED base
   /\ \/ \E i \in Pos(file) : i < Len(file.lines) /\ file' = SwapLines(file, i) /\ UNCHANGED renamed
      \/ \E i \in Pos(file) : IsCompLine(file, i) /\ file' = SplitLine(file, i) /\ UNCHANGED renamed
-     \/ \E i \in Pos(file) : IsCompLine(file, i) /\ file.lines[i].c.kind = "PROD" /\ file' = SplitSigned(file, i) /\ UNCHANGED renamed
+     \/ \E i \in Pos(file) : IsCompLine(file, i) /\ file.lines[i].c.kind \in {"PROD", "OUT"} /\ file' = SplitSigned(file, i) /\ UNCHANGED renamed
      \/ ~renamed /\ file' = RenameIds(file) /\ renamed' = TRUE
      \/ \E i \in Pos(file) : IsCompLine(file, i) /\ file.lines[i].note = "" /\ file' = AddNote(file, i) /\ UNCHANGED renamed
      \/ \E i \in Pos(file) : file' = AddBlank(file, i) /\ UNCHANGED renamed
